@@ -183,18 +183,33 @@ def ulog_draw_case(ctx, g, rng):
     rel = "pm.draw(UniformLog) follows F(x)=(ln x-ln a)/(ln b-ln a)"
     a = float(10 ** rng.uniform(-2, 2))
     b = a * float(10 ** rng.uniform(0.1, 4))
+    # the bounds as a user may write them: arbitrary floats, "nice" floats (2., 1000.), Python / numpy integers
+    form = ["int", "float", "nice float", "numpy int64", "numpy float32", "float"][g["index"] % 6]
+    if form != "float":
+        ai = int(rng.choice([1, 2, 5, 10, 30]))
+        bi = ai + int(rng.choice([1, 2, 5, 45, 990, 20000]))
+        a, b = float(ai), float(bi)
+    arg = {"float": (a, b), "nice float": (a, b), "int": (int(a), int(b)) if form == "int" else None,
+           "numpy int64": (np.int64(a), np.int64(b)), "numpy float32": (np.float32(a), np.float32(b))}[form]
+    ctx.count(f"ulog:bounds given as {form}")
     n = 4000
     devs = []
+    inp = dict(a=a, b=b, n=n, bounds_given_as=form)
     for rep in range(2):
         with fast():
-            x = pm.draw(UniformLog.dist(a, b), draws=n, random_seed=int(rng.integers(0, 2**31)))
+            x = np.asarray(pm.draw(UniformLog.dist(*arg), draws=n, random_seed=int(rng.integers(0, 2**31))), dtype="f8")
         if x.min() < a * (1 - 1e-13) or x.max() > b * (1 + 1e-13):
-            violate(ctx, rel, g, dict(a=a, b=b, n=n), dict(min=float(x.min()), max=float(x.max())), None,
+            violate(ctx, rel, g, inp, dict(min=float(x.min()), max=float(x.max())), None,
                           "draws must lie inside [a, b]", tags=dict(dist="UniformLog", where="draw-support"))
+            return
+        if len(np.unique(x)) < 0.98 * n:
+            violate(ctx, rel, g, inp, dict(distinct_values=int(len(np.unique(x))), draws=n), None,
+                          "draws of a continuous density are (almost surely) pairwise distinct; repeated values mean the draw "
+                          "was computed on a coarse grid", tags=dict(dist="UniformLog", where="draw-grid"))
             return
         devs.append(ks_dev(x, lambda t: (np.log(t) - math.log(a)) / (math.log(b) - math.log(a))))
     eps = dkw_eps(n)
-    ctx.evaluated(rel, (a, b), sample=dict(a=a, b=b, n=n, ks=devs, dkw_eps=eps))
+    ctx.evaluated(rel, (a, b), sample=dict(a=a, b=b, n=n, ks=devs, dkw_eps=eps, bounds_given_as=form))
     ctx.count("ulog:pm.draw")
     if min(devs) > 5 * eps:
         violate(ctx, rel, g, dict(a=a, b=b, n=n), dict(ks=devs), dict(dkw_eps=eps),
@@ -587,7 +602,7 @@ def setup(ctx):
 
 def plan(ctx):
     cases = [("ulog", i) for i in range(1500 if ctx.thorough else 60)]
-    cases += [("ulogdraw", i) for i in range(30 if ctx.thorough else 3)]
+    cases += [("ulogdraw", i) for i in range(36 if ctx.thorough else 6)]
     cases += [("fcm", i) for i in range(1000 if ctx.thorough else 40)]
     cases += [("kipping", 0)]
     cases += [("sample", i) for i in range(400 if ctx.thorough else 24)]
@@ -617,6 +632,8 @@ def run_case(ctx, g):
 
 
 def post(ctx):
+    for form in ("int", "float", "nice float", "numpy int64", "numpy float32"):
+        ctx.require(f"UniformLog draws with bounds given as {form}", ctx.counters[f"ulog:bounds given as {form}"], 1)
     c = ctx.counters
     ctx.rule = RULE
     ctx.extra["exhaustive"] = False
